@@ -6,7 +6,7 @@ a model is returned when one exists unless max_conflicts / max_restarts is exhau
 never a model for an unsatisfiable formula; the call returns within 5 s and raises nothing.  Machine rejections of
 learned clauses (RUP), INFEASIBLE / enumeration-complete verdicts are C02's.
 """
-from harness.core import Ctx
+from harness.core import COQ, Ctx
 from harness.props import sat_common as SC
 
 ID = "C02"
@@ -21,6 +21,7 @@ def run(ctx: Ctx):
                 "coqc); distinct = canonical JSON of (clauses, assumptions, options); round 2: input container forms, aliased clause "
                 "objects, option corners, call sequences, and a few heavy by-construction instances (blocks, guarded pigeonhole, sparse/large indices)")
     ctx.proof_step(["C01"], props_file="Props/C02.v")
+    if (COQ / "Props" / "C02_deep.v").exists(): ctx.proof_step(["C01"], props_file="Props/C02_deep.v")  # noqa: E701
     ctx.notes += SC.NOTES + SC.NOTES_C02
     from harness.props import sat_shapes as SH  # round-2 hardening (HARDENING.md): heavy by-construction instances, call sequences
     heavy = SH.start_heavy(ctx, "C02")  # solved in a forked pool while the small-case engine runs
